@@ -160,8 +160,9 @@ CHECKS = {
         "groups": [
             {"pkg": "Havoc/cmd/server", "with": SRV_WITH, "entries": ["H_c06_first", "H_c06_window"], "no_native_witness": True, "no_native_replay": True},
             {"pkg": "Havoc/pkg/service", "entries": ["H_c06_service"], "no_native_witness": True, "no_native_replay": True},
+            {"pkg": "Havoc/pkg/packager", "entries": ["H_c06_create_package"], "no_native_witness": True, "no_native_replay": True},
         ],
-        "bounds": "first message = arbitrary Package (event/sub-event any int32; Head.User one of two operators / unknown / empty; Body.Info absent or with User/Password each absent, right string, other string, number, bool, null, object); profile with and without Operators block; one follow-up message; the digest of another operator's password. Service endpoint: first message undecodable or decoded with any of five request types and the right password / 0..2 arbitrary characters / the right password plus one character, 0..2 follow-up messages.",
+        "bounds": "first message = arbitrary Package (event/sub-event any int32; Head.User one of two operators / unknown / empty; Body.Info absent or with User/Password each absent, right string, other string, number, bool, null, object); profile with and without Operators block; one follow-up message; the digest of another operator's password. Service endpoint: first message undecodable or decoded with any of five request types and the right password / 0..2 arbitrary characters / the right password plus one character, 0..2 follow-up messages. Decoding of the first message (Packager.CreatePackage): texts of 0..200 bytes, JSON or not.",
         "outside": "gorilla/websocket, TLS, JSON decoding itself (modelled as: yields an arbitrary well-typed Package), what an authenticated service connection may then register (C16)",
         "min_completed": 3,
     },
@@ -202,8 +203,9 @@ CHECKS = {
             {"pkg": "Havoc/pkg/common", "entries": ["H_c03_utf16", "H_c03_stripnull"]},
             {"pkg": "Havoc/pkg/agent", "with": AGENT_WITH, "entries": ["H_c03_register"], "shards": 3},
             {"pkg": "Havoc/pkg/agent", "with": AGENT_WITH, "entries": ["H_c03_identity"]},
+            {"pkg": "Havoc/cmd/server", "with": SRV_WITH, "entries": ["H_c03_session_lookup"]},
         ],
-        "bounds": "ParseInt32/64/Bool/Pointer: buffer length 0..16 (thorough 0..24), all byte values; ParseBytes: length 0..14 (thorough 0..22); CanIRead: 0..3 fields of the 5 kinds over 0..16 (thorough 0..22) bytes.",
+        "bounds": "ParseInt32/64/Bool/Pointer: buffer length 0..16 (thorough 0..24), all byte values; ParseBytes: length 0..14 (thorough 0..22); CanIRead: 0..3 fields of the 5 kinds over 0..16 (thorough 0..22) bytes; session lookup: 1..3 sessions alive or dead, any 32-bit id.",
         "outside": "longer buffers; console text formatting",
         "min_completed": 5,
     },
